@@ -380,6 +380,12 @@ def gen_mod_case(rng):
         elif not numeric and 'stop' in spec:
             d0, d1 = ref.to_date(spec['start']), ref.to_date(spec['stop'])
             mod['stop'] = D(d0 + (d1 - d0) // 2)
+    if rng.random() < 0.08:      # a start just after the sim's stop
+        mod.pop('stop', None)
+        if numeric and mu == su and 'stop' in spec:
+            mod['start'] = dec(F(spec['stop']) + F(mod.get('dt', spec.get('dt', '1.0'))) * rng.choice([F(1, 2), F(1, 4), 1, F(3, 2)]))
+        elif not numeric and 'stop' in spec:
+            mod['start'] = D(ref.to_date(spec['stop']) + dtm.timedelta(days=rng.choice([1, 3, 20, 200])))
     kind = rng.choice(MODKINDS)
     extra = rng.choice([(), (), ('sis', 'randomnet'), ('births',)])
     return dict(sim=spec, mod=mod, modkind=kind, extra=list(extra))
@@ -420,7 +426,7 @@ def check_contracts(ctx):
     ctx.count('contract_checks', len(lines))
     # np.round to time_eps = nearest multiple, ties to even, and linspace endpoints
     xs = np.array([0.0000005, 0.0000015, 2000.1234565, 1.5e-6, 2.5e-6])
-    if list(np.round(xs, 6)) != [0.0, 2e-06, float(np.round(2000.1234565, 6)), 2e-06, 2e-06]:
+    if MICRO == 10**6 and list(np.round(xs, 6)) != [0.0, 2e-06, float(np.round(2000.1234565, 6)), 2e-06, 2e-06]:
         ctx.broke('correspondence', 'C07.contract', f'np.round(…, 6) contract: {list(np.round(xs, 6))}')
     # extracted tables vs the live module
     f = (ctx.extracted.get('TimeDefaults') or {}).get('facts') or {}
@@ -466,11 +472,26 @@ def grid_line(s):
     return 'grid 0 1 1'
 
 
+def set_eps(ctx=None):
+    """ vectors are compared in units of time_eps: 10^-decimals, from the regenerated table / the live option """
+    global MICRO
+    import starsim as ss
+    dec_ = int(-math.log10(ss.options.time_eps))
+    if ctx is not None:
+        f = (ctx.extracted.get('TimeDefaults') or {}).get('facts') or {}
+        dec_ = f.get('decimals', dec_)
+    MICRO = 10 ** dec_
+    ref.EPS = F(1, MICRO); ref.TOL = 2 * ref.EPS
+    for u in list(ref.UNIT_DAYS):     # the length of a unit is a definition of the code base, not a behaviour
+        ref.UNIT_DAYS[u] = F(repr(float(ss.time.time_units[u])))
+
+
 def correspond(ctx):
+    set_eps(ctx)
     check_contracts(ctx)
     rng = ctx.rng
     # (1) the sim's own timeline
-    n1 = ctx.budget(260, 2500)
+    n1 = ctx.budget(450, 3000)
     specs = [gen_sim_spec(rng) for _ in range(n1)]
     specs += corpus_specs()
     lines = []
@@ -511,7 +532,7 @@ def correspond(ctx):
             ctx.broke('correspondence', 'C07.sim', f'sim timeline of {fmt_spec(s)} diverges from Model/Timeline.lean: {div}', data=dict(kind='sim', sim=s))
             if ndiv >= 5: break
     # (2) module overrides
-    n2 = ctx.budget(90, 900)
+    n2 = ctx.budget(150, 1200)
     cases = [gen_mod_case(rng) for _ in range(n2)]
     runs = []; all_lines = []
     for c in cases:
@@ -628,6 +649,13 @@ def oracle_case(case):
     elif s.get('dt') is not None: sspec['dt'] = s['dt']
     sobs = to_obs(so)
     fails += ref.check_timeline(sspec, sobs, 'sim' + fmt_spec(s))
+    # a duration on a date timeline: the stop is the start plus dur units, to the calendar day
+    if not so['numeric'] and s.get('dur') is not None and so['unit'] in ref.UNIT_DAYS:
+        d0, d1 = ref.to_date(sspec['start']), ref.to_date(sspec['stop'])
+        want = F(s['dur']) * ref.UNIT_DAYS[so['unit']]
+        if abs((d1 - d0).days - want) > 1:
+            fails.append(dict(signature=dict(oracle='stop-from-dur', cause='days'),
+                              what=f"sim{fmt_spec(s)}: stop={d1} is {(d1 - d0).days} days after start={d0}, but dur={s['dur']} {so['unit']}(s) = {float(want):.2f} days"))
     info = dict(skipped=[])
     for name, mo in r['mods'].items():
         mspec = resolved_spec(mo, None, None)
@@ -656,6 +684,7 @@ def expected_name(case):
 
 def search(ctx):
     rng = ctx.rng
+    set_eps(ctx)
     # stored witnesses of the known findings first (they vanish when the code is repaired)
     for k in ctx.known:
         if k.get('kind') == 'finding' and k.get('replay'):
@@ -668,7 +697,7 @@ def search(ctx):
         d = b.get('data')
         if isinstance(d, dict) and 'sim' in d:
             cases.append(dict(kind=d.get('kind', 'sim'), sim=d['sim'], mod=d.get('mod'), modkind=d.get('modkind', 'sis'), extra=d.get('extra', [])))
-    n = ctx.budget(120, 1200)
+    n = ctx.budget(180, 1500)
     for i in range(n):
         if i % 3 == 2:
             c = gen_mod_case(rng); cases.append(dict(kind='mod', **c))
@@ -688,6 +717,7 @@ def search(ctx):
 
 
 def replay(ctx, data):
+    set_eps(None)
     fails, info = oracle_case(data)
     for f in fails[:5]:
         print('  ' + f['what'][:300], f['signature'])
